@@ -702,21 +702,43 @@ func TestVerifC01Conc(t *testing.T) {
 
 func c01RaceParent(t *testing.T) {
 	dir := t.TempDir()
-	logp := filepath.Join(dir, "race")
-	cmd := exec.Command(os.Args[0], "-test.run", "^TestVerifC01Conc$", "-test.count=1", "-test.timeout", "1200s")
-	cmd.Env = append(os.Environ(), "VERIF_C01_RACE_CHILD=1", "GORACE=exitcode=0 halt_on_error=0 log_path="+logp)
-	// the testing package marks the child FAILED when the detector reported anything; that verdict is
-	// re-derived below from the detector's log, so only other failures of the child are fatal here
-	if out, err := cmd.CombinedOutput(); err != nil &&
-		(!strings.Contains(string(out), "race detected during execution of test") || strings.Contains(string(out), "panic:")) {
+	logp := ""
+	// The child is a -race binary: it needs far more threads and address space than the other harnesses. When the
+	// machine cannot give them (pthread_create EAGAIN, mmap ENOMEM: observed with ~10 builders and a load average of
+	// 200) the Go runtime of the child dies with a `fatal error` before or while the phases run. Such a death says
+	// nothing about the breaker, so the child is started again (at most 4 times, with a pause); every other failure
+	// of the child - a panic, any other fatal error, a test failure - is fatal at once.
+	for attempt := 1; ; attempt++ {
+		logp = filepath.Join(dir, fmt.Sprintf("race%d", attempt))
+		cmd := exec.Command(os.Args[0], "-test.run", "^TestVerifC01Conc$", "-test.count=1", "-test.timeout", "1200s")
+		cmd.Env = append(os.Environ(), "VERIF_C01_RACE_CHILD=1", "GORACE=exitcode=0 halt_on_error=0 log_path="+logp)
+		// the testing package marks the child FAILED when the detector reported anything; that verdict is
+		// re-derived below from the detector's log, so only other failures of the child are fatal here
+		out, err := cmd.CombinedOutput()
+		if err == nil || (strings.Contains(string(out), "race detected during execution of test") && !strings.Contains(string(out), "panic:") &&
+			!strings.Contains(string(out), "fatal error:")) {
+			break
+		}
 		// the reason first AND last: the check keeps only the tail of a failing harness's output
 		var why []string
+		starved := false
 		for _, l := range strings.Split(string(out), "\n") {
 			if strings.HasPrefix(l, "fatal error:") || strings.HasPrefix(l, "panic:") || strings.HasPrefix(l, "race:") ||
 				strings.Contains(l, "ThreadSanitizer") || strings.HasPrefix(l, "runtime:") || strings.HasPrefix(l, "SIG") ||
 				strings.HasPrefix(l, "[signal") {
 				why = append(why, l)
 			}
+			for _, sig := range []string{"failed to create new OS thread", "newosproc", "cannot allocate memory", "out of memory",
+				"failed to allocate", "failed to mmap", "errno=11", "errno=12", "Resource temporarily unavailable"} {
+				if strings.Contains(l, sig) {
+					starved = true
+				}
+			}
+		}
+		if starved && !strings.Contains(string(out), "panic:") && attempt < 4 {
+			t.Logf("verif c01: race child starved of OS resources (attempt %d): %s", attempt, strings.Join(why, " | "))
+			time.Sleep(time.Duration(attempt) * 3 * time.Second)
+			continue
 		}
 		t.Fatalf("verif c01: race child failed: %v\n%s\nverif c01: race child failed because: %s", err, out, strings.Join(why, " | "))
 	}
